@@ -109,6 +109,16 @@ func VH_C05_LegacyProduceV2Batch(version, n, sub int) {
 			ns[i] = 1000000000 + int64(i)*3000000
 		}
 		msgs[i] = Message{Key: vhBytes("key", 1), Value: vhBytes("value", 1), Time: time.Unix(0, ns[i])}
+		if sub == 2 {
+			// null vs empty: record i%2==0 has a null key and an empty value, the other an empty key and a null
+			// value, plus one header with an empty value
+			if i%2 == 0 {
+				msgs[i].Key, msgs[i].Value = nil, []byte{}
+			} else {
+				msgs[i].Key, msgs[i].Value = []byte{}, nil
+			}
+			msgs[i].Headers = []Header{{Key: "h", Value: []byte{}}}
+		}
 	}
 	_, err := c.WriteMessages(msgs...)
 	vhAssert(err == nil, "produce-ok")
@@ -146,13 +156,32 @@ func VH_C05_LegacyProduceV2Batch(version, n, sub int) {
 		// what a consumer decodes: firstTimestamp + delta, must be the record's time in milliseconds
 		vhAssert(firstTs+tsDelta == ns[i]/1000000, "decoded-timestamp-is-the-records-millisecond-timestamp")
 		kl := int(r.varint())
+		vhAssert((kl == -1) == (msgs[i].Key == nil), "null-key-is-length-minus-one-empty-key-is-length-zero")
+		if kl < 0 {
+			kl = 0
+		}
 		k := r.b[r.p : r.p+kl]
 		r.p += kl
 		vl := int(r.varint())
+		vhAssert((vl == -1) == (msgs[i].Value == nil), "null-value-is-length-minus-one-empty-value-is-length-zero")
+		if vl < 0 {
+			vl = 0
+		}
 		v := r.b[r.p : r.p+vl]
 		r.p += vl
 		vhAssert(vhAll(vhBytesEq(k, msgs[i].Key), vhBytesEq(v, msgs[i].Value)), "key-and-value")
-		r.varint() // headers
+		nh := int(r.varint()) // headers
+		vhAssert(nh == len(msgs[i].Headers), "header-count")
+		for h := 0; h < nh; h++ {
+			hkl := int(r.varint())
+			hk := string(r.b[r.p : r.p+hkl])
+			r.p += hkl
+			hvl := int(r.varint())
+			vhAssert(vhAll(hk == msgs[i].Headers[h].Key, hvl == len(msgs[i].Headers[h].Value)), "header-key-and-empty-value-length-zero")
+			if hvl > 0 {
+				r.p += hvl
+			}
+		}
 		vhAssert(r.p == end, "record-length-field")
 	}
 	vhAssert(r.p == len(b), "batch-consumed-exactly")
